@@ -91,6 +91,14 @@ CHECKS = {
              "alone and in mixed templates, must never be wrapped when unextractable or under an untrusted key when WRAP_WITH_TRUSTED, and protections may "
              "never weaken.",
         note="<=2 live keys per state; taint scan only for keys whose value the harness knows; single DES unusable on this image."),
+    "C08": dict(
+        category="model_checking", design_ref="DESIGN.md 3/C08 + Appendix F",
+        technique="exhaustive case matrix (every attribute type x set/copy x template shape x object kind; history attributes supplied to every creating operation) plus explicit-state BFS over make/set/copy/derive histories with a truth model of the four history attributes, all on the real library",
+        text="Part A executes ~3400 set/copy cases (71 attribute types x 2 shapes x 12 object kinds), the gate/TRUSTED cases and 168 history-attribute supply "
+             "cases, each in its own snapshot, against the clause list of Appendix F. Part B enumerates all make/set/copy/derive histories to depth 3 (quick) / "
+             "4 (thorough) and after every step reads CKA_LOCAL, CKA_KEY_GEN_MECHANISM, CKA_ALWAYS_SENSITIVE and CKA_NEVER_EXTRACTABLE of every live key "
+             "against the truth model.",
+        note="Only the listed clauses are judged (stricter library behaviour is fine); SO-session histories are limited to the TRUSTED clause."),
 }
 
 NOT_YET = "check under construction in this session; not claimed yet (DESIGN.md Appendix D gives the build order)"
@@ -119,7 +127,7 @@ def main():
         "setup_cmd": "python3 tools/build_sut.py ossl-asan ossl-plain ref",
         "hooks": {"guard": "SOFTHSM_VERIF", "enable": "tools/build_sut.py passes -DSOFTHSM_VERIF to every variant it compiles from /repo's working tree",
                   "baseline_off_cmd": "cmake --build /repo/_build && ctest --test-dir /repo/_build -j8 --timeout 900",
-                  "source_commits": [], "fix_commits": ["6bd3dce", "e87af21", "bea9994", "588c9b7", "ceb5015", "fd7cd14", "084c459"], "add_only": True},
+                  "source_commits": [], "fix_commits": ["6bd3dce", "e87af21", "bea9994", "588c9b7", "ceb5015", "8d94e13", "fd7cd14", "084c459"], "add_only": True},
         "engines": [
             {"name": "p11sh", "path": "engine/p11sh", "serves_properties": sorted(CHECKS), "kind_free_text": "PKCS#11 shell linked statically against the SUT; SNAP/BACK process snapshots; guard pages + canaries around every buffer"},
             {"name": "p11mc", "path": "py/p11mc", "serves_properties": sorted(CHECKS), "kind_free_text": "explicit-state explorer (level-synchronous BFS with replay-to-state, unmerged DFS), reference models, evidence/findings glue"},
